@@ -132,9 +132,7 @@ func freerunC13(iters int) {
 	for _, prov := range []string{"bounded0", "bounded1", "bounded2", "syncpool"} {
 		for it := 0; it < iters/4+1; it++ {
 			restful.SetCompressorProvider(newProvider(prov))
-			var mu sync.Mutex
 			closeErrs := map[string]error{}
-			_ = mu
 			c := c13Container(closeErrs)
 			kinds := "NDEPRXFNDR"
 			var wg sync.WaitGroup
